@@ -18,6 +18,16 @@ class AnalysisError(Exception):
 REPO = os.environ.get("FDCHECK_REPO", "/repo")
 
 
+class _ExprEnv:
+    """ast expression + {name: ('param', p) | ('const', v) | ...} of the constructor frame it belongs to"""
+    def __init__(self, expr, env):
+        self.expr, self.env = expr, env
+
+    # old callers treat the value as the bare ast
+    def __getattr__(self, a):
+        return getattr(self.expr, a)
+
+
 class FuncInfo:
     def __init__(self, node, module, cls=None):
         self.node = node
@@ -461,7 +471,9 @@ class Project:
             return ("const", expr.value)
         if isinstance(expr, (ast.List, ast.Tuple)) and all(isinstance(e, ast.Constant) for e in expr.elts):
             return ("const", [e.value for e in expr.elts])
-        return ("expr", expr)
+        # an expression over constructor parameters / constants: kept with the bindings in force where
+        # it is evaluated (a base constructor called without an argument sees the DEFAULT there)
+        return ("expr", _ExprEnv(expr, dict(env)))
 
     def _ctor_walk(self, init, env, out, depth):
         if depth > 8:
